@@ -17,9 +17,10 @@ extern unsigned g_push_count; extern int g_fromdata_selection, g_pem_private;
 extern const char *g_dec_last_src; extern const void *g_dec_last_res; extern int g_dec_last_len;
 extern size_t g_ossl_bits;
 extern const void *g_ec_point_x, *g_ec_point_y;
+extern int g_wf_bad, g_wf_private, g_wf_maxlen, g_ec_degree;
 #define JWK_GHOSTS g_jwk_tracked_bin, g_push_name_of_tracked, g_pkey_type_name, g_ec_point_curve, g_push_count, \
 	g_fromdata_selection, g_pem_private, g_ec_point_x, g_ec_point_y, g_lib_fail, g_json_version, g_json_mutations, \
-	g_dec_last_src, g_dec_last_res, g_dec_last_len
+	g_dec_last_src, g_dec_last_res, g_dec_last_len, g_wf_bad
 
 /* an item as jwk_process_one hands it over: zeroed but for kty and json */
 #define ITEM_BLANK(item) (__CPROVER_is_fresh(item, sizeof(*item)) && (item)->error == 0 && (item)->error_msg[0] == 0 && \
@@ -95,5 +96,46 @@ __CPROVER_ensures((ITEM_OK(item) && TRACK1('d')) ==> ((item->is_private_key != 0
 __CPROVER_ensures((ITEM_OK(item) && TRACK1('d') && VJ_HAS(jwk)) ==> PN_PRIV(g_push_name_of_tracked))
 __CPROVER_ensures((ITEM_OK(item) && TRACK1('x') && item->is_private_key == 0) ==> PN_PUB(g_push_name_of_tracked))
 __CPROVER_ensures((TRACK1('n') || TRACK1('e') || TRACK1('k') || TRACK1('y')) ==> g_push_name_of_tracked == NULL)
+;
+
+/* ===================== C08: COMPLETENESS of the importers =====================
+ * "For every well-formed JWK of a supported type the imported item denotes the key": units
+ * compiled with -DVERIF_WELLFORMED give the importer a JWK all of whose members are present
+ * strings (private-only members present exactly for a private key) that decode to 1..g_wf_maxlen
+ * octets (EC: at most the field size of the curve, x and y INDEPENDENTLY -- RFC 7518 fixed
+ * width and the minimal-length encodings found in the wild are both inside).  Every way the
+ * libraries can still say no is recorded: g_lib_fail (allocation, context set-up) and g_wf_bad
+ * (OpenSSL refuses the material: unknown curve, point off the curve, inconsistent key, PEM not
+ * written).  Unless one of them happened the import must succeed: no error, key object and PEM
+ * present, private exactly when the JWK is. */
+#define REQ_JWK_WF(jwk, item) \
+REQ_JWK(jwk, item) \
+__CPROVER_requires(g_wf_bad == 0 && (g_wf_private == 0 || g_wf_private == 1) && g_wf_maxlen >= 1 && g_wf_maxlen <= 0x10000)
+#define ENS_COMPLETE(item) \
+__CPROVER_ensures((g_lib_fail == 0 && g_wf_bad == 0) ==> (__CPROVER_return_value == 0 && (item)->error == 0 && (item)->error_msg[0] == 0 && \
+	(item)->provider == JWT_CRYPTO_OPS_OPENSSL && (item)->provider_data != NULL && (item)->pem != NULL && \
+	((item)->is_private_key != 0) == (g_wf_private != 0) && g_pem_private == g_wf_private))
+#define NOT_LOOKED_UP (g_json_key[0] == 'z' && g_json_key[1] == 'z' && g_json_key[2] == 0)
+int contract_C08complete_openssl_process_rsa(json_t *jwk, jwk_item_t *item)
+REQ_JWK_WF(jwk, item)
+__CPROVER_requires(NOT_LOOKED_UP)
+__CPROVER_assigns(ITEM_FRAME(item), JWK_GHOSTS)
+ENS_COMPLETE(item)
+;
+int contract_C08complete_openssl_process_ec(json_t *jwk, jwk_item_t *item)
+REQ_JWK_WF(jwk, item)
+__CPROVER_requires(NOT_LOOKED_UP)
+__CPROVER_requires((g_ec_degree == 256 || g_ec_degree == 384 || g_ec_degree == 521) && g_wf_maxlen == (g_ec_degree + 7) / 8)
+__CPROVER_assigns(ITEM_FRAME(item), JWK_GHOSTS)
+ENS_COMPLETE(item)
+;
+/* OKP: the curve name is the tracked member and is one of the two RFC 8037 names */
+#define CRV_IS_ED(s) (((s)[0] == 'E' && (s)[1] == 'd' && (s)[2] == '2' && (s)[3] == '5' && (s)[4] == '5' && (s)[5] == '1' && (s)[6] == '9' && (s)[7] == 0) || \
+	((s)[0] == 'E' && (s)[1] == 'd' && (s)[2] == '4' && (s)[3] == '4' && (s)[4] == '8' && (s)[5] == 0))
+int contract_C08complete_openssl_process_eddsa(json_t *jwk, jwk_item_t *item)
+REQ_JWK_WF(jwk, item)
+__CPROVER_requires(TRACK3('c', 'r', 'v') && VJ_IS_STR(jwk) && g_vj_len_a >= 7 && CRV_IS_ED(VJ_STR(jwk)))
+__CPROVER_assigns(ITEM_FRAME(item), JWK_GHOSTS)
+ENS_COMPLETE(item)
 ;
 #endif
